@@ -165,6 +165,32 @@ def run(ctx):
                         call(obj._partition, "t", None, None, None, k, None),
                         {"kind": "glue", "key": k.hex(), "all": allp, "avail": sorted(avail), "choice": fr.c})
                     ctx.count(("g", k, n))
+            # real ClusterMetadata fed by a MetadataResponse: leaders in {-1, 0, 1, 2}
+            cl_mod = importlib.import_module("aiokafka.cluster")
+            md_mod = importlib.import_module("aiokafka.protocol.metadata")
+            for it in range(300 if not ctx.thorough else 6000):
+                n = rng.randrange(1, 9)
+                style = rng.randrange(4)
+                leaders = [(p, rng.choice([-1, 0, 1, 2]) if style else rng.choice([-1, 0])) for p in range(n)]
+                if style == 1:
+                    leaders = [(p, 0 if p == rng.randrange(n) else -1) for p in range(n)]
+                order = leaders[:]
+                rng.shuffle(order)
+                cm = cl_mod.ClusterMetadata(metadata_max_age_ms=10000)
+                cm.update_metadata(md_mod.MetadataResponse_v1(
+                    brokers=[(i, f"b{i}", 9092, None) for i in range(3)], controller_id=0,
+                    topics=[(0, "t", False, [(0, p, l, [0], [0]) for p, l in order])]))
+                obj = P.__new__(P)
+                obj._metadata = cm
+                obj._partitioner = dp
+                k = None if rng.random() < 0.7 else rng.randbytes(rng.randrange(0, 9))
+                fr.c = rng.randrange(0, 100)
+                ls = ",".join(f"{p}:{l}" for p, l in order)
+                add(f"c17 partmd {'none' if k is None else hx(k)} {ls} {fr.c}",
+                    call(obj._partition, "t", None, None, None, k, None),
+                    {"kind": "md", "key": None if k is None else k.hex(), "leaders": order, "choice": fr.c,
+                     "all": list(range(n)), "avail": sorted(p for p, l in leaders if l != -1)})
+                ctx.count(("md", k, tuple(order), fr.c))
         finally:
             part.random = real_random
 
